@@ -8,4 +8,5 @@ git -C /repo worktree add -q --detach "$W" HEAD || exit 2
 if ! git -C "$W" apply "$P"; then echo "patch does not apply"; git -C /repo worktree remove --force "$W"; exit 2; fi
 VERIF_REPO="$W" /verif/check.sh "$ID" "$TIER" "$@"; rc=$?
 git -C /repo worktree remove --force "$W"
+rm -rf "/tmp/verif-replays-$(basename "$W")" "/tmp/verif-evidence-$(basename "$W")"
 exit $rc
